@@ -41,45 +41,69 @@ EV_SHAPES = [0, 0, EV_ADD | EV_REMOVE, EV_ADD, EV_REMOVE, EV_ADD | EV_REMOVE | E
              EV_ADD | EV_REMOVE | EV_PROBE, EV_ADD | EV_RENAMED, EV_REMOVE | EV_PROBE]
 
 
+def decode_class(p):
+    """One packed integer -> {"bases": [...], "ev": shape}.  (List elements are kept to very few draws because
+    the Hypothesis shrinker deletes at most 5 consecutive choices at a time.)"""
+    ev = EV_SHAPES[p % len(EV_SHAPES)]
+    p //= len(EV_SHAPES)
+    nb = (0, 1, 1, 2, 2, 3)[p % 6]
+    p //= 6
+    bases = []
+    for _ in range(nb):
+        bases.append(p % 8)
+        p //= 8
+    return {'bases': bases, 'ev': ev}
+
+
+CLASS_SPACE = len(EV_SHAPES) * 6 * 8 ** 3
+
+
 def classes_strategy(min_size=3, max_size=8):
-    cls = st.fixed_dictionaries({
-        'bases': st.lists(st.integers(0, 7), max_size=3),
-        'ev': st.sampled_from(EV_SHAPES)})
+    cls = st.integers(0, CLASS_SPACE - 1).map(decode_class)
     free = st.lists(cls, min_size=min_size, max_size=max_size)
     # a diamond prefix (A; B(A); C(A); D(B, C)) followed by free classes: keeps multiple-inheritance frequent
-    ev = st.sampled_from(EV_SHAPES)
-    diamond = st.tuples(ev, ev, ev, ev, st.lists(cls, max_size=max_size - 4)).map(
-        lambda t: [{'bases': [], 'ev': t[0]}, {'bases': [0], 'ev': t[1]}, {'bases': [0], 'ev': t[2]},
-                   {'bases': [1, 2], 'ev': t[3]}] + t[4])
+    diamond = st.tuples(st.integers(0, 10 ** 4 - 1), st.lists(cls, max_size=max_size - 4)).map(
+        lambda t: [{'bases': [], 'ev': EV_SHAPES[t[0] % 10]}, {'bases': [0], 'ev': EV_SHAPES[t[0] // 10 % 10]},
+                   {'bases': [0], 'ev': EV_SHAPES[t[0] // 100 % 10]},
+                   {'bases': [1, 2], 'ev': EV_SHAPES[t[0] // 1000 % 10]}] + t[1])
     return st.one_of(free, diamond)
 
 
 def decode_op(weights):
-    """Map a generic operand tuple (sel, a, b, c, lst) to a named op using a cumulative weight table."""
+    """Map (sel, packed operands) to a named op using a cumulative weight table."""
     table = []
     for name, w in weights.items():
         table.extend([name] * w)
 
     def dec(t):
-        sel, a, b, c, lst = t
+        sel, p = t
+        d = [(p >> (4 * i)) & 15 for i in range(5)]
         name = table[sel % len(table)]
         if name == 'create':
-            return ['create', a % (len(EXPLICIT_IDS) + 1) if c % 2 else 0, lst]
+            n = (1, 1, 2, 0, 1, 2, 3, 1)[d[1] >> 1]
+            return ['create', (d[0] % len(EXPLICIT_IDS)) + 1 if d[1] & 1 else 0, [x % 8 for x in d[2:2 + n]]]
         if name == 'add':
-            return ['add', a, b, c % 4]
+            return ['add', d[0], d[1], d[2] % 4]
         if name == 'remove':
-            return ['remove', a, b]
+            return ['remove', d[0], d[1]]
         if name in ('delete', 'delete_now', 'bad_delete'):
-            return [name, a]
+            return [name, d[0]]
         return [name]
     return dec, len(table)
 
 
 def ops_strategy(weights, max_ops=40):
     dec, total = decode_op(weights)
-    small = st.integers(0, 15)
-    op = st.tuples(st.integers(0, total - 1), small, small, small, st.lists(st.integers(0, 7), max_size=3)).map(dec)
-    return st.one_of(st.lists(op, min_size=1, max_size=10), st.lists(op, min_size=10, max_size=max_ops))
+    op = st.tuples(st.integers(0, total - 1), st.integers(0, 16 ** 5 - 1)).map(dec)
+    return chunked(op, max_ops)
+
+
+def chunked(elem, max_len, chunk=6):
+    """Lists of ``elem`` up to max_len built from small chunks: longer on average than st.lists (whose mean
+    length is about 6) while still shrinking by deleting chunks and elements."""
+    outer = max(1, max_len // chunk + 1)
+    return st.lists(st.lists(elem, min_size=1, max_size=chunk), min_size=1, max_size=outer).map(
+        lambda cs: [x for c in cs for x in c][:max_len])
 
 
 def case_strategy(weights, max_ops=40):
@@ -103,7 +127,7 @@ class Run:
         self.sentinel = None
         self.attached = {}
         self.pending = []           # ids awaiting deletion, in request order, python-equality de-duplicated
-        self.bad_pending = False    # a deferred delete of an id that owned nothing is outstanding (C05 only)
+        self.bad_pending = []       # ids that owned nothing when their deferred deletion was asked (C05 only)
         self.known_ids = []
         self.detached = []
         self.comps = []
@@ -163,8 +187,11 @@ class Run:
     def is_pending(self, e):
         return any(p == e for p in self.pending)
 
+    def is_marked(self, e):
+        return self.is_pending(e) or any(b == e for b in self.bad_pending)
+
     def vanished_pending(self, e):
-        return self.is_pending(e) and not self.owns(e)
+        return self.is_marked(e) and not self.owns(e)
 
     def maps(self, comp, event):
         return event in getattr(type(comp), '__events__', {})
@@ -193,6 +220,11 @@ class Run:
         self.steps += 1
         self._owed = []
         name = op[0]
+        if name in ('add', 'remove', 'delete', 'delete_now') and self.known_ids:
+            t = self.target(op[1])
+            if t is not None and self.is_pending(t):
+                self.flags['op_on_pending_id'] += 1
+                self.flags['op_on_pending_id:' + name] += 1
         mark = len(self.log)
         getattr(self, 'op_' + name)(*op[1:])
         if 'lifecycle' in self.checks and name != 'toggle':
@@ -219,7 +251,7 @@ class Run:
             eid = None
             for k in range(len(EXPLICIT_IDS)):
                 cand = EXPLICIT_IDS[(id_sel - 1 + k) % len(EXPLICIT_IDS)]
-                if not self.owns(cand) and not self.is_pending(cand):
+                if not self.owns(cand) and not self.is_marked(cand):
                     eid = cand
                     break
                 self.excluded['explicit_id_in_use'] += 1
@@ -232,7 +264,7 @@ class Run:
             if 'queries' in self.checks and comps and got in before:
                 self.viol('auto_id_names_entity_that_owns_components', returned=got,
                           owners=list(before))
-            if self.is_pending(got) and comps:
+            if self.is_marked(got) and comps:
                 # an automatic id equal to one that awaits deletion: the statement does not say whether the
                 # new components are to be deleted with it; stop judging this history (counted).
                 self.flags['auto_id_hit_pending_id'] += 1
@@ -309,18 +341,23 @@ class Run:
 
     def op_delete(self, ent_ix):
         e = self.target(ent_ix)
-        if e is None or not self.owns(e):
-            return self.noop('deferred_delete_of_absent_entity' if e is not None else None)
+        if e is not None and not self.owns(e):
+            owners = [k for k in self.known_ids if self.owns(k)]
+            e = owners[ent_ix % len(owners)] if owners else None
+            self.excluded['deferred_delete_of_absent_entity_retargeted'] += 1
+        if e is None:
+            return self.noop()
         self._delete(e)
 
     def op_bad_delete(self, ent_ix):
         """deferred deletion of an id that owns nothing (C05 only): process must raise KeyError, once."""
-        cands = [k for k in self.known_ids + NEVER_USED if not self.owns(k) and not self.is_pending(k)]
+        cands = [k for k in self.known_ids + NEVER_USED if not self.owns(k) and not self.is_marked(k)]
         if not cands:
             return self.noop()
         e = cands[ent_ix % len(cands)]
         self.call_op(self.world.delete_entity, e)
-        self.bad_pending = True
+        if not any(b == e for b in self.bad_pending):
+            self.bad_pending.append(e)
         self.flags['bad_delete'] += 1
 
     def _delete(self, e):
@@ -361,7 +398,7 @@ class Run:
         self.frame_obs = None
         pend = [p for p in self.pending]
         n_pending_rows = sum(1 for p in pend if self.owns(p))
-        legit_failure = self.bad_pending
+        legit_failure = bool(self.bad_pending)
         try:
             _, used = with_budget(PROCESS_BUDGET, self.world.process, 1)
         except StepBudgetExceeded as exc:
@@ -376,7 +413,7 @@ class Run:
                 if not isinstance(exc, KeyError):
                     self.viol('process_raised_other_than_KeyError', exception=repr(exc))
                 self.flags['failed_frame'] += 1
-                self.recover_after_failed_frame()
+                self.recover_after_failed_frame(len(self.bad_pending))
                 return
             self.on_op_exception(exc)
         else:
@@ -384,7 +421,7 @@ class Run:
                 # pinned by tests/test_logic.py::test_delete_entity: KeyError at the next frame.  A process()
                 # that copes silently would also satisfy C05, so nothing is demanded here.
                 self.flags['bad_delete_tolerated'] += 1
-        self.bad_pending = False
+        self.bad_pending = []
         group = []
         for p in pend:
             row = self.attached.pop(p, None)
@@ -408,7 +445,7 @@ class Run:
             self.detached.extend(row.values())
         self.attached = {}
         self.pending = []
-        self.bad_pending = False
+        self.bad_pending = []
         self.enabled = True
         self.queue = []
         self.flags['clear'] += 1
@@ -631,13 +668,23 @@ class Run:
                 self.viol('components_survive_deferred_deletion', entity=repr(p))
             if self.q(w.entity_exists, p):
                 self.viol('entity_exists_after_deferred_deletion', entity=repr(p))
+        if pend:
+            # the identifier is free again: giving it a component makes it exist
+            p = pend[len(self.comps) % len(pend)]
+            c = self.new_comp(len(self.comps))
+            self.call_op(w.create_entity, c, entity_id=p)
+            self.attached[p] = {type(c): c}
+            if not self.q(w.entity_exists, p) or [id(x) for x in self.q(w.get_components, p)] != [id(c)]:
+                self.viol('identifier_not_free_after_deferred_deletion', entity=repr(p))
+            self.flags['id_reused_after_deletion'] += 1
 
-    def recover_after_failed_frame(self):
-        """A frame failed legitimately (deferred deletion of an id that owned nothing).  At most 3 further
-        frames without new operations: one of them must succeed and leave every pending deletion applied."""
+    def recover_after_failed_frame(self, nbad):
+        """A frame failed legitimately (deferred deletion of ``nbad`` ids that owned nothing; the failed frame
+        accounts for one of them).  Further frames without new operations: each may fail for one more of those
+        ids, so one of the next ``nbad`` frames must succeed and leave every pending deletion applied."""
         pend = list(self.pending)
         ok = False
-        for _ in range(3):
+        for _ in range(max(1, nbad)):
             self.frame_obs = None
             try:
                 with_budget(PROCESS_BUDGET, self.world.process, 1)
@@ -649,7 +696,7 @@ class Run:
                 self.flags['failed_frame_again'] += 1
         if not ok:
             self.viol('failed_process_leaves_world_failing_on_every_later_frame', pending=[repr(p) for p in pend])
-        self.bad_pending = False
+        self.bad_pending = []
         for p in pend:
             row = self.attached.pop(p, None)
             if row:
